@@ -1,7 +1,7 @@
 (* C04 — locks: one holder, only live sessions, released whenever the session ends.  Theorems only. *)
 From stdpp Require Import gmap strings.
 From Coq Require Import NArith.
-From Verif Require Import Store.Model Store.Inv Store.Theorems Store.SessInv Store.EndInv.
+From Verif Require Import Store.Model Store.Inv Store.Theorems Store.SessInv Store.EndInv Store.Holder.
 Local Open Scope N_scope.
 
 (* In every reachable state (any history of any commands, transactions included): every lock holder
@@ -121,6 +121,25 @@ Proof. exact end_of_session_txn_op. Qed.
 Theorem C04_end_of_session_in_txn : forall idx ops s, LockInv s -> StepsEnd idx ops s.
 Proof. exact end_of_session_in_txn. Qed.
 
+(* Who holds a key changes only by a successful acquisition of a free key by a live session, by a
+   release by the holder, or because the holder's session ended -- for every standalone KV command
+   (set, cas, delete, delete-cas, delete-tree, lock, unlock) and every other command; transactions are
+   compositions of these steps (C05_commit_is_sequential, C03_txn_frame). *)
+Theorem C04_kv_command_holder : forall idx v q s k h h',
+  holder s k = Some h -> holder (apply_kvs idx v q s).1 k = Some h' -> h' ≠ h ->
+  (v = VLock /\ k = q_key q /\ h = "" /\ h' = q_session q /\ q_session q ≠ "" /\
+   is_Some (sessions s !! q_session q)) \/
+  (v = VUnlock /\ k = q_key q /\ h = q_session q /\ h' = "" /\ q_session q ≠ "").
+Proof. exact kv_command_holder. Qed.
+
+Theorem C04_other_command_holder : forall idx c s k h h',
+  LockInv s ->
+  match c with KVS _ _ | Txn _ | Reap _ => True | _ =>
+    holder s k = Some h -> holder (apply idx c s).1 k = Some h' -> h' ≠ h ->
+    h' = "" /\ is_Some (sessions s !! h) /\ sessions (apply idx c s).1 !! h = None
+  end.
+Proof. exact other_command_holder. Qed.
+
 (* No command of any history ever reports the model's own "out of fuel": the invalidation cascades
    always run to completion, so no invariant above holds merely because a cascade was cut short. *)
 Theorem C04_no_fuel : forall log s, Forall no_fuel (run log s).2.
@@ -171,5 +190,7 @@ Print Assumptions C04_end_of_session_command.
 Print Assumptions C04_end_of_session_txn_op.
 Print Assumptions C04_end_of_session_in_txn.
 Print Assumptions C04_no_fuel.
+Print Assumptions C04_kv_command_holder.
+Print Assumptions C04_other_command_holder.
 Print Assumptions C04_end_example.
 Print Assumptions C04_example.
